@@ -7,7 +7,7 @@ import itertools
 from sa.astx import NotConst, const_eval, dotted, module_consts, src
 from sa.selftest import Mutant, Silent
 from sa.source import AnalysisError
-from sa.props._lib_a import (DEFER, Q, attr_of, avoiding_path, call_nodes, calls_of, const_int, exc_escape, catching_handlers, facts,
+from sa.props._lib_a import (DEFER, Q, group, attr_of, avoiding_path, call_nodes, calls_of, const_int, exc_escape, catching_handlers, facts,
                              handler_names, ident_fact, is_const, is_name, known_bool, known_ident, known_none, kw, method_call,
                              name_assign_nodes, no_exc, params, passes_between, stmt_nodes, succ_on, targets_values)
 
@@ -302,11 +302,11 @@ def check(ctx):
     consts.setdefault("SUCCESS", True)
     consts.setdefault("FAILURE", False)
 
-    _check_cb(ctx, consts)
-    _check_init(ctx, consts)
-    _check_cancel(ctx)
-    _check_gather(ctx)
-    _check_race(ctx)
+    for name, fn in (("DeferredList._cbDeferred", lambda: _check_cb(ctx, consts)), ("DeferredList.__init__", lambda: _check_init(ctx, consts)),
+                     ("DeferredList.cancel", lambda: _check_cancel(ctx)), ("gatherResults", lambda: _check_gather(ctx)),
+                     ("race", lambda: _check_race(ctx))):
+        with group(ctx, name):
+            fn()
 
 
 # ---------------------------------------------------------------------------------------------
@@ -315,11 +315,21 @@ def _check_init(ctx, consts):
     g = ctx.cfg(f)
     q = Q + "DeferredList.__init__"
     cb = ctx.func(DEFER, "DeferredList._cbDeferred")
-    heads = _loop_heads(g, lambda st: any(attr_of(x, "_deferredList", "self") for x in ast.walk(st.iter)))
-    ctx.need(heads, "loop over self._deferredList in DeferredList.__init__")
-    ctx.check(len(heads) == 1, "init/one-registration-loop", q, f"{len(heads)} loops over the inputs")
+    is_reg = lambda c: isinstance(c.func, ast.Attribute) and c.func.attr in ("addCallbacks", "addBoth", "addCallback", "addErrback") and \
+        any(attr_of(x, "_cbDeferred", "self") for a in list(c.args) + [k.value for k in c.keywords] for x in ast.walk(a))
+    all_regs = call_nodes(g, is_reg)
+    ctx.check(bool(all_regs), "init/registers-each-input", q + " | <registration of self._cbDeferred>",
+              "DeferredList.__init__ attaches self._cbDeferred to nothing: the list never learns about its inputs")
+    heads = [h for h in _loop_heads(g, lambda st: True) if any(g.path([h], [r], strict=True) and g.path([r], [h], strict=True) for r in all_regs)]
+    ctx.check(len(heads) == 1, "init/one-registration-loop", q, f"self._cbDeferred is attached in {len(heads)} loops (expected exactly one loop over the inputs)")
+    if not heads:
+        return
     head = heads[0]
     st = g.node(head).ast
+    it_src = st.iter.args[0] if isinstance(st.iter, ast.Call) and dotted(st.iter.func) == "enumerate" and st.iter.args else st.iter
+    ctx.check(attr_of(it_src, "_deferredList", "self"), "init/iterates-the-copied-inputs", q + " | " + src(st.iter),
+              "callbacks are attached while iterating something other than self._deferredList (the argument may be a one-shot iterable already "
+              "consumed by list(), or differ in length/order from resultList)")
     # the inputs are copied once and the result list has one slot per input
     copies = stmt_nodes(g, lambda s: any(attr_of(t, "_deferredList", "self") and isinstance(v, ast.Call) and dotted(v.func) == "list"
                                          and len(v.args) == 1 and is_name(v.args[0], params(f)[1]) for t, v in targets_values(s) if v is not None))
@@ -347,9 +357,11 @@ def _check_init(ctx, consts):
                   f"self.{attr} is not set (from its own parameter / to 0) on every path before callbacks are attached: an input that has "
                   "already fired runs _cbDeferred synchronously with the wrong flag / counter", witness=g.describe(wit))
     # registration
-    regs = [n for n in call_nodes(g, lambda c: isinstance(c.func, ast.Attribute) and c.func.attr == "addCallbacks")
-            if g.path([head], [n], strict=True) and g.path([n], [head], strict=True)]
-    ctx.check(len(regs) == 1, "init/registers-each-input", q, f"{len(regs)} addCallbacks registrations inside the loop (expected 1)")
+    in_loop = [n for n in all_regs if g.path([head], [n], strict=True) and g.path([n], [head], strict=True)]
+    regs = [n for n in in_loop if calls_of(g, n, is_reg)[0].func.attr == "addCallbacks"]
+    ctx.check(len(regs) == 1 and len(in_loop) == 1, "init/registers-each-input", q,
+              f"expected one `<input>.addCallbacks(self._cbDeferred, self._cbDeferred, ...)` per input, found "
+              f"{[calls_of(g, n, is_reg)[0].func.attr for n in in_loop]}: success and failure of an input must both be recorded, with their own flag")
     wit = _no_early_exit(g, head)
     ctx.check(wit is None, "init/registers-each-input", q + " | <loop covers every input>", "the registration loop can stop before the last input",
               witness=g.describe(wit))
@@ -528,15 +540,25 @@ def _check_race(ctx):
     g = ctx.cfg(f)
     q = Q + "race"
     ds = params(f)[0]
-    # the copied list
-    copies = [(n, t.id) for n in stmt_nodes(g, lambda s: True) for t, v in targets_values(g.node(n).ast)
-              if isinstance(t, ast.Name) and isinstance(v, ast.Call) and dotted(v.func) in ("list", "tuple") and len(v.args) == 1 and is_name(v.args[0], ds)]
-    ctx.need(copies, "copy of the input sequence in race()")
-    L = copies[0][1]
+    # L: the collection the closures iterate / index / measure ("to_cancel")
+    closures = [st for st in ast.walk(f) if isinstance(st, (ast.FunctionDef, ast.AsyncFunctionDef)) and st is not f]
+    votes = {}
+    for cf_ in closures:
+        for x in ast.walk(cf_):
+            if isinstance(x, (ast.For, ast.AsyncFor)) and isinstance(x.iter, ast.Name):
+                votes[x.iter.id] = votes.get(x.iter.id, 0) + 2
+            elif isinstance(x, ast.Subscript) and isinstance(x.value, ast.Name) and isinstance(x.ctx, ast.Load) and isinstance(x.slice, ast.Name):
+                votes[x.value.id] = votes.get(x.value.id, 0) + 1
+    ctx.check(bool(votes), "race/losers-cancelled", q + " | <collection of inputs used by the closures>",
+              "no closure of race() iterates over the inputs: neither the losers nor, on cancel, the inputs can be cancelled")
+    L = max(sorted(votes), key=lambda k: votes[k]) if votes else "<no input collection>"
+    _check_race_inputs_complete(ctx, f, g, q, ds, L, closures)
     # result Deferred
     finals = [(n, t.id, v) for n in stmt_nodes(g, lambda s: True) for t, v in targets_values(g.node(n).ast)
               if isinstance(t, ast.Name) and isinstance(v, ast.Call) and dotted(v.func) == "Deferred"]
-    ctx.need(finals, "result Deferred of race()")
+    ctx.check(bool(finals), "race/result-deferred", q, "race() creates no result Deferred")
+    if not finals:
+        return
     F = finals[0][1]
     dinit = _deferred_init(ctx)
     canc = _bind(finals[0][2], dinit).get("canceller")
@@ -545,22 +567,18 @@ def _check_race(ctx):
     rets = stmt_nodes(g, lambda s: isinstance(s, ast.Return))
     ctx.check(bool(rets) and all(is_name(g.node(r).ast.value, F) for r in rets), "race/returns-result", q, "race() does not return its result Deferred")
     # registration loop
-    heads = _loop_heads(g, lambda st: isinstance(st.iter, ast.Call) and dotted(st.iter.func) == "enumerate")
-    ctx.check(len(heads) == 1, "race/registration-loop", q, "race() has no single `for index, d in enumerate(...)` registration loop")
+    heads = _race_reg_heads(g)
+    ctx.check(len(heads) == 1, "race/registration-loop", q, f"race() attaches callbacks to its inputs in {len(heads)} loops (expected exactly one)")
     sname = fname = None
     for head in heads:
         st = g.node(head).ast
         it = st.iter
-        ok = len(it.args) == 1 and (is_name(it.args[0], ds) or is_name(it.args[0], L)) and (kw(it, "start") is None or const_int(kw(it, "start")) == 0) \
+        ok = isinstance(it, ast.Call) and dotted(it.func) == "enumerate" and len(it.args) == 1 and (is_name(it.args[0], ds) or is_name(it.args[0], L)) and (kw(it, "start") is None or const_int(kw(it, "start")) == 0) \
             and isinstance(st.target, ast.Tuple) and len(st.target.elts) == 2 and all(isinstance(e, ast.Name) for e in st.target.elts)
         ctx.check(ok, "race/index-from-enumerate", q, "the index does not come from enumerate() over the inputs, starting at 0")
         if not ok:
             continue
         iname, dname = st.target.elts[0].id, st.target.elts[1].id
-        wit = g.must_precede([copies[0][0]], [head])
-        ctx.check(wit is None, "race/copy-before-registration", q,
-                  "the inputs are copied after callbacks are attached: an input that already fired runs `succeeded` before the list exists",
-                  witness=g.describe(wit))
         wit = g.must_precede([finals[0][0]], [head])
         ctx.check(wit is None, "race/copy-before-registration", q + " | result Deferred", "the result Deferred is created after callbacks are attached",
                   witness=g.describe(wit))
@@ -581,15 +599,17 @@ def _check_race(ctx):
                 sname, fname = cbx.id, ebx.id
             ctx.check(not [n for n in name_assign_nodes(g, iname) if n != head], "race/index-from-enumerate", q + " | <index unmodified>",
                       "the index is modified inside the loop")
-    ctx.need(sname and fname, "success / failure closures registered by race()")
+    # the closures by role: the one that calls back the result / the one that errbacks it
+    by_cb = [c_.name for c_ in closures if any(isinstance(x, ast.Call) and method_call(x, "callback", F) for x in ast.walk(c_))]
+    by_eb = [c_.name for c_ in closures if any(isinstance(x, ast.Call) and method_call(x, "errback", F) for x in ast.walk(c_))]
+    ctx.check(len(by_cb) == 1 and len(by_eb) == 1 and by_cb != by_eb, "race/closure-roles", q + " | <one success and one failure closure>",
+              f"closures firing the result: callback in {by_cb}, errback in {by_eb} (expected one each)")
+    if not (by_cb and by_eb):
+        return
+    ctx.check(sname == by_cb[0] and fname == by_eb[0], "race/closure-roles", q,
+              f"registered (success, failure) callbacks are ({sname}, {fname}); the closure calling back the result is {by_cb[0]}, the one errbacking it {by_eb[0]}")
+    sname, fname = by_cb[0], by_eb[0]
     sf, ff = ctx.func(DEFER, f"race.{sname}"), ctx.func(DEFER, f"race.{fname}")
-    # roles of the closures: the success closure fires callback, the failure closure errback
-    s_cb = [x for x in ast.walk(sf) if isinstance(x, ast.Call) and method_call(x, "callback", F)]
-    f_eb = [x for x in ast.walk(ff) if isinstance(x, ast.Call) and method_call(x, "errback", F)]
-    ctx.check(bool(s_cb) and bool(f_eb) and not [x for x in ast.walk(sf) if isinstance(x, ast.Call) and method_call(x, "errback", F)]
-              and not [x for x in ast.walk(ff) if isinstance(x, ast.Call) and method_call(x, "callback", F)],
-              "race/closure-roles", q, f"`{sname}` / `{fname}` are not registered as (success, failure) callbacks in that order")
-
     # ---- succeeded -----------------------------------------------------------------------------
     sg = ctx.cfg(sf)
     sq = Q + f"race.{sname}"
@@ -762,6 +782,89 @@ def _check_race(ctx):
             ctx.check(wit is None, "race/cancel-covers-inputs", cq + " | <loop covers every input>", "the loop can stop early", witness=cg_.describe(wit))
 
 
+_MUTATORS = ("append", "appendleft", "extend", "insert", "remove", "pop", "popleft", "clear", "sort", "reverse")
+
+
+def _race_reg_heads(g):
+    """loops of race() in which callbacks are attached to the loop's Deferred"""
+    out = []
+    for h in _loop_heads(g, lambda st: True):
+        names = {x.id for x in ast.walk(g.node(h).ast.target) if isinstance(x, ast.Name)}
+        regs = call_nodes(g, lambda c: isinstance(c.func, ast.Attribute) and c.func.attr in ("addCallbacks", "addBoth", "addCallback", "addErrback")
+                          and isinstance(c.func.value, ast.Name) and c.func.value.id in names)
+        if any(g.path([h], [r], strict=True) and g.path([r], [h], strict=True) for r in regs):
+            out.append(h)
+    return out
+
+
+def _mutations(g, L):
+    """CFG nodes that change the content / order of the local collection L"""
+    out = call_nodes(g, lambda c: isinstance(c.func, ast.Attribute) and c.func.attr in _MUTATORS and is_name(c.func.value, L))
+    out += stmt_nodes(g, lambda s: (isinstance(s, ast.AugAssign) and is_name(s.target, L)) or
+                      any(isinstance(t, ast.Subscript) and is_name(t.value, L) for t, _ in targets_values(s)) or
+                      (isinstance(s, ast.Delete) and any(isinstance(t, ast.Subscript) and is_name(t.value, L) for t in s.targets)))
+    return sorted(set(out))
+
+
+def _is_full_copy(v, ds) -> bool:
+    if is_name(v, ds):   # plain alias of the argument: complete by construction
+        return True
+    if isinstance(v, ast.Call) and dotted(v.func) in ("list", "tuple") and len(v.args) == 1 and not v.keywords and is_name(v.args[0], ds):
+        return True
+    if isinstance(v, ast.Subscript) and is_name(v.value, ds) and isinstance(v.slice, ast.Slice) and v.slice.lower is None and v.slice.upper is None \
+            and v.slice.step is None:
+        return True
+    if isinstance(v, (ast.List, ast.Tuple)) and len(v.elts) == 1 and isinstance(v.elts[0], ast.Starred) and is_name(v.elts[0].value, ds):
+        return True
+    if isinstance(v, ast.ListComp) and len(v.generators) == 1 and not v.generators[0].ifs and is_name(v.generators[0].iter, ds) \
+            and isinstance(v.generators[0].target, ast.Name) and is_name(v.elt, v.generators[0].target.id):
+        return True
+    return False
+
+
+def _check_race_inputs_complete(ctx, f, g, q, ds, L, closures):
+    """The collection the closures iterate / index / measure holds ALL inputs, in input order, before the first callback is
+    attached (an input that already fired calls back synchronously) and is not changed afterwards."""
+    cons = q + f" | <inputs collection `{L}`>"
+    heads = _race_reg_heads(g)
+    regs = [r for h in heads for r in call_nodes(g, lambda c: isinstance(c.func, ast.Attribute) and c.func.attr in ("addCallbacks", "addBoth", "addCallback", "addErrback"))
+            if g.path([h], [r], strict=True) and g.path([r], [h], strict=True)]
+    if L == ds:
+        ctx.ok("race/inputs-complete-before-registration", cons, "the closures use the argument itself")
+    else:
+        defs = name_assign_nodes(g, L)
+        full = [d for d in defs if any(is_name(t, L) and v is not None and _is_full_copy(v, ds) for t, v in targets_values(g.node(d).ast))]
+        muts = _mutations(g, L)
+        # a separate fill loop that completes before the registration loop is acceptable
+        fills = []
+        for h in _loop_heads(g, lambda st: is_name(st.iter, ds) or (isinstance(st.iter, ast.Call) and dotted(st.iter.func) == "enumerate"
+                                                                    and st.iter.args and is_name(st.iter.args[0], ds))):
+            if h in heads:
+                continue
+            tv = g.node(h).ast.target
+            var = tv.elts[-1] if isinstance(tv, ast.Tuple) else tv
+            apps = call_nodes(g, lambda c: method_call(c, "append", L) and len(c.args) == 1 and isinstance(var, ast.Name) and is_name(c.args[0], var.id))
+            if apps and avoiding_path(g, succ_on(g, [h], "iter"), [h], apps, strict=False) is None and _no_early_exit(g, h) is None:
+                fills.append(h)
+        complete = [d for d in full] + fills
+        wit = None
+        if complete and heads:
+            wit = g.must_precede(complete, heads)
+        ctx.check(bool(complete) and wit is None, "race/inputs-complete-before-registration", cons,
+                  f"`{L}` is not a complete copy of the inputs (list({ds}) or an equivalent finished before the registration loop) when the first "
+                  "callbacks are attached: an input that has already fired calls back synchronously and sees a partial list (later inputs are "
+                  "not cancelled; the all-failed test is true too early)", witness=g.describe(wit))
+        late = [m for m in muts + [d for d in defs if d not in full] if any(g.path([r], [m], edge_ok=no_exc, strict=True) for r in regs)
+                or any(g.path([h], [m], edge_ok=no_exc, strict=True) and g.path([m], [h], edge_ok=no_exc, strict=True) for h in heads)]
+        ctx.check(not late, "race/inputs-complete-before-registration", cons + " (filled while registering)",
+                  f"`{L}` is still being filled / changed inside or after the loop that attaches the callbacks ("
+                  + "; ".join(sorted({src(g.node(m).ast)[:50] for m in late})) + "): a pre-fired input calls back while the collection is incomplete")
+    bad = [src(x)[:50] for cf_ in closures for x in ast.walk(cf_)
+           if (isinstance(x, ast.Call) and isinstance(x.func, ast.Attribute) and x.func.attr in _MUTATORS and is_name(x.func.value, L))
+           or (isinstance(x, (ast.AugAssign,)) and is_name(x.target, L))]
+    ctx.check(not bad, "race/inputs-list-stable", cons, f"a closure changes `{L}` ({bad}): indexes passed to the callbacks no longer identify their input")
+
+
 def _deferred_init(ctx):
     return ctx.func(DEFER, "Deferred.__init__")
 
@@ -807,6 +910,11 @@ MUTANTS = [
     Mutant("cancel-stops-at-first-error", D, "                except BaseException:\n                    log.failure(\"Exception raised from user supplied canceller\")",
            "                except BaseException:\n                    log.failure(\"Exception raised from user supplied canceller\")\n                    break", expect_rule="cancel/isolated-call-out"),
     Mutant("complete-one-early", D, "elif self.finishedCount == len(self.resultList):", "elif self.finishedCount == len(self.resultList) - 1:", expect_rule="cb/fire-decision"),
+    Mutant("inputs-list-filled-while-registering", D, "    to_cancel = list(ds)\n    for index, d in enumerate(ds):\n",
+           "    to_cancel = []\n    for index, d in enumerate(ds):\n        to_cancel.append(d)\n", expect_rule="race/inputs-complete-before-registration"),
+    Mutant("init-loops-over-the-argument", D, "        for deferred in self._deferredList:\n            deferred.addCallbacks(", "        for deferred in deferredList:\n            deferred.addCallbacks(",
+           expect_rule="init/iterates-the-copied-inputs"),
+    Mutant("race-winner-popped-from-inputs", D, "            winner = to_cancel[this_index]\n", "            winner = to_cancel.pop(this_index)\n", expect_rule="race/inputs-list-stable"),
 ]
 SILENT = [
     Silent("enumerate-index", D, "        index = 0\n        for deferred in self._deferredList:\n", "        for index, deferred in enumerate(self._deferredList):\n",
@@ -824,4 +932,5 @@ SILENT = [
     Silent("cb-early-return-when-called", D, "        self.finishedCount += 1\n        if not self.called:\n            if succeeded == SUCCESS and self.fireOnOneCallback:",
            "        self.finishedCount += 1\n        if self.called:\n            return None if (not succeeded and self.consumeErrors) else result\n        if True:\n            if succeeded == SUCCESS and self.fireOnOneCallback:"),
     Silent("gather-positional-arguments", D, "        deferredList, fireOnOneErrback=True, consumeErrors=consumeErrors\n", "        deferredList, False, True, consumeErrors\n"),
+    Silent("race-inputs-filled-by-own-loop-first", D, "    to_cancel = list(ds)\n", "    to_cancel = []\n    for each in ds:\n        to_cancel.append(each)\n"),
 ]
